@@ -12,12 +12,12 @@ class DotSyntaxError(Exception):
 
 
 TOKEN = re.compile(r'''
-    (?P<ws>\s+)
+    (?P<ws>\s+ | //[^\n]* | /\*.*?\*/ )
   | (?P<arrow>->)
   | (?P<punct>[{}\[\];,=])
   | (?P<id>[A-Za-z_\200-\377][A-Za-z0-9_\200-\377]*|-?(?:\.[0-9]+|[0-9]+(?:\.[0-9]*)?))
   | (?P<quote>")
-''', re.X)
+''', re.X | re.S)
 
 
 # reserved words of the DOT language (case-insensitive): they cannot be used as
